@@ -25,6 +25,21 @@ def main(argv):
         small = len(d["text"]) < 400
         amod = any(f.get("kind") == "array_field" and f.get("size_modifier")
                    for x in d["analyzed"]["declarations"] for f in x.get("fields", []))
+        # an `_elementsize_` field too narrow for the constant size of the elements it announces: the decoder (and the
+        # reference: the field is not consulted for elements of static size) accepts non-empty arrays that no encoder can
+        # write back (SizeOverflow) — cause flag of KF-C04-esize-narrow-static
+        from checks.c06 import own_static_octets
+        esize_narrow = False
+        for x in d["analyzed"]["declarations"]:
+            for f in x.get("fields", []):
+                if f.get("kind") != "elementsize_field":
+                    continue
+                arr = [g for g in x["fields"] if g.get("kind") == "array_field" and g.get("id") == f.get("field_id")]
+                et = d["types"].decls.get(arr[0].get("type_id")) if arr else None
+                if et is not None and et["kind"] == "struct_declaration" and not et.get("parent_id"):
+                    n = own_static_octets(d["types"], et)
+                    if isinstance(n, int) and n > (1 << f["width"]) - 1:
+                        esize_narrow = True
         for T in co.packet_types(i):
             vals = wc.values(i, T, wc.sz["values"])
             refs = co.model(i, T, [{"k": "ref", "v": v} for v, _ in vals])
@@ -106,6 +121,8 @@ def main(argv):
                     rep = {"pdl": d["text"], "type": T, "input_hex": s.hex(), "decoded": v, "reencoded": e, "reference": rf,
                            "signature": {"class": "reencode", "agrees_with_model_of_emitted_code": W.same_enc(e, me), "array_modifier": amod}}
                     if e.get("r") != "ok":
+                        if esize_narrow and e.get("e") == "SizeOverflow":
+                            rep["signature"]["esize_narrow_static"] = True
                         run.violation("impl", "%s: value decoded from %s does not re-encode (%s)" % (T, s.hex()[:40], e), rep)
                         continue
                     if rf.get("r") == "ok" and e["hex"] != rf["hex"]:
